@@ -7,7 +7,7 @@ def run(ctx):
     b = build.ensure_explorer("dec_pm", "asan")
     d = 5 if ctx.thorough else 4
     for s, a in (("pm2-tables", []), ("pm2-bytes", []), ("pm2-copies", []), ("pm2-seq", ["depth=%d" % d]), ("pm2-schedule", []), ("pm2-reload", []),
-                 ("pm1-headers", []), ("pm1-lengths", []), ("pm1-distances", []), ("pm1-seq", ["depth=%d" % d])):
+                 ("pm1-headers", []), ("pm1-lengths", []), ("pm1-maxout", []), ("pm1-distances", []), ("pm1-seq", ["depth=%d" % d])):
         ctx.run_space(b, s, a, cpu_limit=60)
     ctx.assumptions += ["ref/ref_pm.c: -pm2-/-pm1- serialisers and decoders written from the format notes (DESIGN.md A.5/A.6); decoders bound to all 36 -pm1- (all 32 start headers) and 4 -pm2- corpus members by ./check selftest; every enumerated stream round-trips through the reference decoder"]
     return ctx.finish(
